@@ -245,6 +245,12 @@ def modResolves (env : Env) (mono : Bool) (m : Mod) : Bool :=
   | .ok _ => true
   | .error _ => false
 
+/-- one stated adduct ion parses and its element is known in the mode's table (or it is an electron) -/
+def adductIonOk (mono : Bool) (x : List Nat) : Bool :=
+  match parseIonElements x with
+  | .ok (_, sym, _) => sym = kE || (lookup sym (if mono then isotopicMasses else averageMasses)).isSome
+  | .error _ => false
+
 /-- domain of the specification: known residues, known ion type, every modification resolves, the rules parse, the
 adduct list parses and is stated for the (un)charged peptide (for fragment ion types the library replaces the whole
 ion-forming part - transferred hydrogens included - by the list, which C02 does not cover) -/
@@ -259,9 +265,7 @@ def inDomain (env : Env) (a : Annotation) (ion : Key) (mono : Bool) (adducts : O
       | .ok map => map.all (fun p => p.2.all (modResolves env mono))) &&
   (match adducts with
     | none => true
-    | some s => (ion = ionP || ion = ionN) && (splitComma s).all (fun x => match parseIonElements x with
-        | .ok (_, sym, _) => sym = kE || (lookup sym (if mono then isotopicMasses else averageMasses)).isSome
-        | .error _ => false))
+    | some s => (ion = ionP || ion = ionN) && (splitComma s).all (adductIonOk mono))
 
 /-- executable form used by the oracle: `none` = outside the domain -/
 def specMass (T : MassTable) (env : Env) (a : Annotation) (ion : Key) (charge : Int) (mono : Bool) (isotope : Int)
